@@ -1028,11 +1028,6 @@ class eigenbasis_of(basis_context_manager):
         # the context is entered (the context object may have been created
         # elsewhere, or be entered again); the operator of the enclosing
         # context (if any) is restored on exit
-        self.outer_op = self.manager.current_basis_operator
-        self.manager.store_current_basis_operator(self.op)
-
-        self.manager._in_eigenbasis_of_context = True
-        
         if self.manager.warn_about_basis_change:
             print("\nQr >>> Entering basis context manager ...")
             
@@ -1046,6 +1041,15 @@ class eigenbasis_of(basis_context_manager):
         
         #SS = self.op.diagonalize()
         SS = self.op.get_diagonalization_matrix()
+
+        # the records of the manager are changed only when the operator
+        # could be diagonalized: if entering fails (__exit__ is not called
+        # then), the enclosing context stays as it was
+        self.outer_op = self.manager.current_basis_operator
+        self.manager.store_current_basis_operator(self.op)
+
+        self.manager._in_eigenbasis_of_context = True
+
         self.manager.set_new_basis(SS)
 
         #self.manager.register_with_basis(nb,self.op)
